@@ -136,7 +136,8 @@ func (m *MessageDescriptor) ByNumber(id FieldNumber) *FieldDescriptor {
 }
 
 func (m *MessageDescriptor) FieldsCount() int {
-	return m.ids.Size() - 1
+	// ids is indexed by field number, so its size is the largest number + 1, not the number of fields
+	return len(m.ids.All())
 }
 
 type MethodDescriptor struct {
